@@ -22,7 +22,7 @@ def cdeep(t):
 def run(chk, tier):
     P = Prog("default")
     chk.configs.add("default")
-    for r in (r_zones, r_year_rule, r_reader_widths, r_writer, r_weekday, r_absint, r_flow, r_own_ranges, r_comments, r_colon_ws):
+    for r in (r_zones, r_year_rule, r_reader_widths, r_writer, r_weekday, r_absint, r_flow, r_own_ranges, r_comments, r_colon_ws, r_item_arms, r_mandatory_space):
         chk.guarded(r, P, tier)
     chk.assume("optional-part acceptance, comments, white-space runs and the values returned (the round trip) are NOT decided")
     return {
@@ -259,3 +259,38 @@ def r_colon_ws(chk, P, tier):
         raise AnchorLost("parse_rfc2822: %d colon probes found, expected the hour:minute and the optional :second probe" % len(sites))
     for i, (site, vs) in enumerate(sorted(sites.items(), key=lambda kv: str(kv[0]))):
         chk.expect(vs == {True}, "colon probe #%d" % (i + 1), "parse_rfc2822 probes for a time colon without skipping the white space before it (colon probe #%d in source order)" % (i + 1), loc=P.loc(fn))
+
+
+def r_item_arms(chk, P, tier):
+    """the RFC 2822 / RFC 3339 items of a format string render the very value being formatted: in DelayedFormat::format_fixed both writers receive
+    NaiveDateTime::new(date, time) of the pattern-bound date and time, unmodified (no call on either part: a leap second or a fraction must reach the writer), and the bound offset"""
+    chk.rule("COPY.item_arms", "format_fixed hands write_rfc2822 / write_rfc3339 NaiveDateTime::new of the bound date and time unmodified, and the bound offset", floor=2)
+    fn = "format::formatting::DelayedFormat::<I>::format_fixed"
+    seen = {}
+    for p_ in Sym(P, fn).paths(max_paths=20000):
+        for c in p_.calls:
+            if isinstance(c[1], str) and (c[1].endswith("formatting::write_rfc2822") or c[1].endswith("formatting::write_rfc3339")):
+                dt = c[2][1]
+                ok = is_call(dt, suffix="NaiveDateTime::new") and len(dt[2]) == 2
+                if ok:
+                    for part, idx in zip(dt[2], (0, 1)):
+                        calls = [x for x in walk_terms(part) if x[0] == "call"]
+                        flds = [x for x in walk_terms(part) if x[0] == "field" and x[1] in (("deref", ("arg", 1)), ("arg", 1))]
+                        ok = ok and not calls and len(flds) == 1 and flds[0][2] == idx
+                seen.setdefault(c[1].split("::")[-1], set()).add((ok, pp(dt)[:160]))
+    for w in ("write_rfc2822", "write_rfc3339"):
+        if w not in seen:
+            raise AnchorLost("format_fixed: no call of " + w)
+        chk.expect(all(o for o, _ in seen[w]), w, "format_fixed passes %s to %s (expected NaiveDateTime::new(self.date?, self.time?) with both parts unmodified)" % (sorted(t for _, t in seen[w]), w), loc=P.loc(fn))
+
+
+def r_mandatory_space(chk, P, tier):
+    """RFC 2822 has exactly four places where white space is mandatory (day FWS month FWS year FWS time FWS zone); everywhere else it is optional (trim_start). Every accepting path
+    of parse_rfc2822 calls scan::space exactly four times: a fifth call makes an optional space mandatory (`Tue,20 Jan ..` is valid), a missing one accepts run-together fields"""
+    chk.rule("COUNT.mandatory_space", "every accepting path of parse_rfc2822 passes scan::space exactly 4 times", floor=1)
+    fn = "format::parse::parse_rfc2822"
+    oks = [p_ for p_ in Sym(P, fn).paths(max_paths=20000) if p_.end[0] in ("return", "loop") and (p_.end[0] == "loop" or result_variant(p_.ret)[0] == "Ok")]
+    if not oks:
+        raise AnchorLost("parse_rfc2822: no accepting path")
+    counts = sorted({sum(1 for c in p_.calls if isinstance(c[1], str) and c[1].endswith("scan::space")) for p_ in oks})
+    chk.expect(counts == [4], "scan::space count", "accepting paths of parse_rfc2822 call scan::space %s times (expected exactly 4: after day, month, year and time)" % counts, loc=P.loc(fn))
